@@ -230,8 +230,10 @@ def _draw_pop(draw, mech, ems, n_cov_rows, point_only=False, allow_cov=True):
         e = dict(kind=draw(st.sampled_from(kinds)), n_dim=nd)
         if e['kind'] in ('gauss', 'lognorm'):
             e['centered'] = not gen.chance(draw, 0.45)
-        if allow_cov and n_cov_parts < 2 and gen.chance(draw, 0.3):
+        if allow_cov and n_cov_parts < 2 and gen.chance(draw, 0.3 if n_cov_parts == 0 else 0.6):
             e = popgen.draw_cov_wrap(draw, e, n_ids_h, max_cov=2)
+            if n_cov_parts == 0 and gen.chance(draw, 0.4):
+                e['n_cov'] = 2          # (a first covariate part with two covariates shifts the columns of a second one)
             n_cov_parts += 1
         parts.append(e)
         d += nd
